@@ -208,7 +208,14 @@ def check_case(ctx, case):
                        'scheme_text': _syn.get(spec[1], '')[:3000]})
         return
     hook_mol(real)
-    o = observe(real.GetDescriptors, smi)
+    arg = smi
+    if case.get('as_mol'):
+        arg = Chem.MolFromSmiles(smi)
+        if arg is None:
+            ctx.skip('SMILES not parseable by RDKit')
+            return
+        ctx.count('molecule_object_inputs')
+    o = observe(real.GetDescriptors, arg)
     ctx.evals()
     hm = hook_mol(real)
     try:
@@ -310,7 +317,7 @@ def check_case(ctx, case):
         ctx.klass('%s descriptor %s' % (_sname(spec), d), n)
     for r_, n in fired['remaps'].items():
         ctx.klass('%s remap %s' % (_sname(spec), r_), n)
-    ctx.nontrivial([spec, smi])
+    ctx.nontrivial([spec, smi, bool(case.get('as_mol'))])
     if ctx.rng.random() < 0.02:
         ctx.sample({'scheme': spec, 'smiles': smi, 'descriptors': got,
                     'atoms': len(per_atom)})
@@ -376,6 +383,10 @@ def run_shard(ctx):
         for smi in pl:
             if ctx.mine(i):
                 check_case(ctx, {'scheme': spec, 'smiles': smi})
+                if i % 4 == 0 or '~' in smi or '$' in smi or '[H]' in smi:
+                    # the same molecule handed over as an RDKit object
+                    check_case(ctx, {'scheme': spec, 'smiles': smi,
+                                     'as_mol': True})
                 if any(c.isdigit() for c in smi):
                     # ring molecules also in two non-canonical spellings:
                     # ring perception walks each ring in atom order
